@@ -640,7 +640,7 @@ fn convert_class_names_and_rpx_in_block(input: &mut StepParser, ss: &mut StyleSh
                     Token::Function(func) => {
                         let func: &str = func;
                         let close = ss.append_nested_block(next.clone(), input);
-                        if func == "calc" {
+                        if func.eq_ignore_ascii_case("calc") {
                             convert_rpx_in_block(input, ss, Some(ConvertOptions { in_calc: true }));
                         } else {
                             // e.g. `:not(:is(.a .b))` : still selectors, at any depth
@@ -714,12 +714,14 @@ fn convert_rpx_in_block(
                     | Token::SquareBracketBlock
                     | Token::ParenthesisBlock => {
                         let close = ss.append_nested_block(next.clone(), input);
-                        convert_rpx_in_block(input, ss, None);
+                        // parentheses inside `calc()` are still part of the calculation
+                        let config = in_calc.then_some(ConvertOptions { in_calc: true });
+                        convert_rpx_in_block(input, ss, config);
                         ss.append_nested_block_close(close, input);
                     }
                     Token::Function(func) => {
                         let func: &str = func;
-                        let config = if func == "calc" {
+                        let config = if in_calc || func.eq_ignore_ascii_case("calc") {
                             Some(ConvertOptions { in_calc: true })
                         } else {
                             None
